@@ -5,6 +5,7 @@ Imports the executable model only (core Lean + Lean.Data.Json), so it links as a
 import Lean.Data.Json
 import GontainerModel.Model.Runner
 import GontainerModel.Model.Decode
+import GontainerModel.Model.Emit
 import GontainerModel.Model.Runtime
 open Lean GM
 
@@ -441,6 +442,12 @@ def handle (j : Json) : Json :=
     let r := Runner.run w (fun _ => ce)
     Json.mkObj [("exit", Json.num r.exit), ("printed", strList r.printed), ("errors", strList r.errors),
       ("file", match r.file with | .untouched => Json.str "untouched" | .wrote _ t => Json.mkObj [("wrote", t)])]
+  | "emit" =>
+    let i := inputOfJson ((j.getObjVal? "input").toOption.getD Json.null)
+    match Compile.compile (jstr j "version") i with
+    | .error es => Json.mkObj [("errs", strList es)]
+    | .ok (o, _) =>
+      Json.mkObj [("ok", Json.arr ((Emit.constructorBody o).map fun st => Json.arr #[Json.str st.fn, strList st.args]).toArray)]
   | "rt" =>
     let i := inputOfJson ((j.getObjVal? "input").toOption.getD Json.null)
     match Compile.compile (jstr j "version") i with
